@@ -357,6 +357,9 @@ func (e *chanEngine) classify(fn *ssa.Function, joinLatches map[*types.Var]bool)
 				op.Why = "a timer channel is drained after Stop() returned false: when the value was already received (the timer's case was taken) nothing will ever arrive and the receive blocks for ever"
 			} else if isTimerChan(x.X) {
 				op.Class = bcBounded
+			} else if q, _ := e.isQuitLike(x.X); q && !isDoneLike(x.X) {
+				// waiting for the quit latch itself: this is the wait for the stop request
+				op.Class = bcGuarded
 			} else if f, _ := chanFieldOf(x.X); f != nil && joinLatches[f] {
 				op.Class = bcJoin
 			} else if localLatchClosedByGoroutine(fn, x.X) {
@@ -408,4 +411,10 @@ func fmtOps(ops []blockingOp) string {
 		s += fmt.Sprintf("%s[%s] ", o.What, o.Class)
 	}
 	return s
+}
+
+// isDoneLike: the channel is a field named done (a completion latch that other code joins on, not a stop request).
+func isDoneLike(v ssa.Value) bool {
+	f, _ := chanFieldOf(v)
+	return f != nil && f.Name() == "done"
 }
